@@ -79,3 +79,36 @@ func stripRun(src, dst string) error {
 	}
 	return os.WriteFile(dst, buf.Bytes(), 0644)
 }
+
+// rewriteClock writes a copy of a source file in which the wall clock reads time.Now() and time.Since(x) go through the
+// harness clock (zzverif.Now / zzverif.Since). Everything else is byte-identical.
+func rewriteClock(src, dst, modDir string) error {
+	b, err := os.ReadFile(src)
+	if err != nil {
+		return err
+	}
+	gm, err := os.ReadFile(modDir + "/go.mod")
+	if err != nil {
+		return err
+	}
+	modPath := ""
+	for _, l := range strings.Split(string(gm), "\n") {
+		if strings.HasPrefix(l, "module ") {
+			modPath = strings.TrimSpace(strings.TrimPrefix(l, "module "))
+		}
+	}
+	txt := string(b)
+	n := strings.Count(txt, "time.Now()") + strings.Count(txt, "time.Since(")
+	if n == 0 {
+		return fmt.Errorf("no clock reads found in %s", src)
+	}
+	txt = strings.ReplaceAll(txt, "time.Now()", "zzverif.Now()")
+	txt = strings.ReplaceAll(txt, "time.Since(", "zzverif.Since(")
+	i := strings.Index(txt, "import (")
+	if i < 0 {
+		return fmt.Errorf("no import block in %s", src)
+	}
+	txt = txt[:i+len("import (")] + "\n\t\"" + modPath + "/pkg/zzverif\"" + txt[i+len("import ("):]
+	txt += "\nvar _ = time.Second\n"
+	return os.WriteFile(dst, []byte(txt), 0644)
+}
